@@ -4,13 +4,15 @@ pub mod c01;
 pub mod c02;
 pub mod c03;
 pub mod c04;
+pub mod c05;
+pub mod fuzzrun;
 pub mod c06;
 pub mod c07;
 pub mod common;
 pub mod c11;
 
 pub fn all() -> Vec<PropertyDef> {
-    vec![c01::DEF, c02::DEF, c03::DEF, c04::DEF, c06::DEF, c07::DEF, c11::DEF]
+    vec![c01::DEF, c02::DEF, c03::DEF, c04::DEF, c05::DEF, c06::DEF, c07::DEF, c11::DEF]
 }
 
 pub fn lookup(id: &str) -> Option<PropertyDef> {
